@@ -477,6 +477,53 @@ func (p *Pool) Put(v interface{}) {
 	p.mu.Unlock()
 }
 
+// QuietPool is Pool without scheduling points in Get/Put: for pools that are hit thousands of
+// times inside one thread-local computation (the assembler's instruction objects), where the
+// interesting switches are the few statements around the computation, not every Get. It is
+// still deterministic (LIFO, never drops, emptied per execution) under the scheduler.
+type QuietPool struct {
+	New func() interface{}
+	p   Pool
+}
+
+func (q *QuietPool) Get() interface{} {
+	p := &q.p
+	if !p.det() {
+		if v := p.real.Get(); v != nil {
+			return v
+		}
+		if q.New != nil {
+			return q.New()
+		}
+		return nil
+	}
+	p.register()
+	p.mu.Lock()
+	var v interface{}
+	if n := len(p.items); n > 0 {
+		v = p.items[n-1]
+		p.items[n-1] = nil
+		p.items = p.items[:n-1]
+	}
+	p.mu.Unlock()
+	if v == nil && q.New != nil {
+		v = q.New()
+	}
+	return v
+}
+
+func (q *QuietPool) Put(v interface{}) {
+	p := &q.p
+	if !p.det() {
+		p.real.Put(v)
+		return
+	}
+	p.register()
+	p.mu.Lock()
+	p.items = append(p.items, v)
+	p.mu.Unlock()
+}
+
 func resetPools() {
 	poolsMu.Lock()
 	for _, p := range pools {
